@@ -270,6 +270,7 @@ fn c12_evaluate_v<const N: usize, const K: usize>(allow_nan: bool) {
 #[kani::proof] #[kani::unwind(8)] fn c12_n5_k2() { c12_evaluate_v::<5, 2>(false) }
 #[kani::proof] #[kani::unwind(9)] fn c12_n6_k2() { c12_evaluate_v::<6, 2>(false) }
 #[kani::proof] #[kani::unwind(11)] fn c12_n8_k2() { c12_evaluate_v::<8, 2>(false) }
+#[kani::proof] #[kani::unwind(15)] fn c12_n12_k2() { c12_evaluate_v::<12, 2>(false) }
 #[kani::proof] #[kani::unwind(5)] fn c16_evaluate_v_anyf64_n3_k3() { c12_evaluate_v::<3, 3>(true) }
 #[kani::proof]
 #[kani::should_panic]
@@ -433,6 +434,7 @@ c15! {
     c15_translate_n1, 1, 3, 4; c15_translate_n2, 2, 3, 5; c15_translate_n3, 3, 3, 6; c15_translate_n4, 4, 3, 7;
     c15_mul_n5, 5, 0, 8; c15_mulassign_n5, 5, 1, 8; c15_neg_n5, 5, 2, 8; c15_translate_n5, 5, 3, 8;
     c15_mul_n8, 8, 0, 11; c15_mulassign_n8, 8, 1, 11; c15_neg_n8, 8, 2, 11; c15_translate_n8, 8, 3, 11;
+    c15_mul_n20, 20, 0, 23; c15_mulassign_n20, 20, 1, 23; c15_neg_n20, 20, 2, 23; c15_translate_n20, 20, 3, 23; c08_pwderiv_n20, 20, 4, 23;
     c08_pwderiv_n1, 1, 4, 4; c08_pwderiv_n2, 2, 4, 5; c08_pwderiv_n3, 3, 4, 6; c08_pwderiv_n4, 4, 4, 7;
 }
 /// Segment-level operations (loop-free: complete).
@@ -466,13 +468,13 @@ fn c15_segment_ops() {
 pub struct STag(pub u32);
 #[derive(Clone, Copy, Debug, PartialEq)]
 pub struct ITag { pub id: u32, pub k: f64, pub trans: u32 }
-static mut ILOG_ID: [u32; 16] = [0; 16];
-static mut ILOG_X: [u64; 16] = [0; 16];
+static mut ILOG_ID: [u32; 48] = [0; 48];
+static mut ILOG_X: [u64; 48] = [0; 48];
 static mut ILOG_N: usize = 0;
 impl Evaluate for ITag {
     fn evaluate(&self, x: f64) -> f64 {
         unsafe {
-            if ILOG_N < 16 { ILOG_ID[ILOG_N] = self.id; ILOG_X[ILOG_N] = x.to_bits(); }
+            if ILOG_N < 48 { ILOG_ID[ILOG_N] = self.id; ILOG_X[ILOG_N] = x.to_bits(); }
             ILOG_N += 1;
         }
         self.k + (self.id as f64) * unsafe { ISCALE }
@@ -596,6 +598,9 @@ c11! {
     c11_iter_n1, 1, 2, 4; c11_iter_n2, 2, 2, 5; c11_iter_n3, 3, 2, 6; c11_iter_n4, 4, 2, 7;
     c11_indefinite_n1, 1, 3, 4; c11_indefinite_n2, 2, 3, 5; c11_indefinite_n3, 3, 3, 6; c11_indefinite_n4, 4, 3, 7;
 }
+#[kani::proof] #[kani::unwind(23)] fn c11_integral_n20() { c11_integral::<20>(0) }
+#[kani::proof] #[kani::unwind(23)] fn c11_indefinite_n20() { c11_integral::<20>(3) }
+#[kani::proof] #[kani::unwind(23)] fn c11_iter_n20() { c11_integral::<20>(2) }
 const TINY: f64 = 8.673617379884035e-19; // 2^-60
 #[kani::proof] #[kani::unwind(6)] fn c11_integral_tiny_n3() { c11_integral_scaled::<3>(0, TINY) }
 #[kani::proof] #[kani::unwind(6)] fn c11_iter_tiny_n2() { c11_integral_scaled::<2>(2, TINY) }
